@@ -98,7 +98,10 @@ def check(rep, tier):
             S = sn.Snowing(k={"int": 0, "ext": 0, "s0": 50 if dim == "homogeneous" else 300, "s_sigma_rel": 0}, opcond=sr.gen_opcond.build(prog, impl.opcond_mod()), Nrep=3, configPath=path)
             mp.cpu_count = lambda: 2
             with impl.quiet(), impl.adversarial_pool():
+                S.run(how="sequential"); t0, _ = table(S)
                 S.run(how="async"); t1, _ = table(S)
+                if len(t0) != len(t1) or not all(same(a, b) for a, b in zip(t0, t1)):
+                    rep.violation("history parallel-vs-sequential", "%s: first sequential and parallel studies of the same object differ" % lab, dict(run=lab))
                 # change the object in memory: another shelf coefficient, another program, another kinetic constant; the file on disk is rewritten
                 # with something else entirely (the object holds its own constants)
                 S.k = dict(S.k, s0=S.k["s0"] * 0.6)
@@ -106,8 +109,8 @@ def check(rep, tier):
                 S.opcond = sr.gen_opcond.build(prog2, impl.opcond_mod())
                 S.const["b"] = 27.0
                 open(path, "w").write(yaml.safe_dump(dict(over, kinetics={"a": 22.0, "b": 12.0})))
+                S.run(how="sequential"); t3, _ = table(S)      # a sequential study of the changed object (there was a sequential study before the change)
                 S.run(how="async"); t2, idx2 = table(S)
-                S.run(how="sequential"); t3, _ = table(S)
             rep.case(lab, nontrivial=True); rep.count("history-studies")
             if idx2 != [0, 1, 2] or len(t2) != 3 or len(t3) != 3 or not all(same(a, b) for a, b in zip(t2, t3)):
                 rep.violation("history parallel-vs-sequential", "%s: the parallel table after the changes %s differs from the sequential table of the same object %s (first study gave %s)" % (
